@@ -3,7 +3,7 @@ scripted PI-controller output, evaluation faults at chosen iterates and a virtua
 import sys
 import types
 
-sys.path.insert(0, "/repo")
+sys.path.insert(0, __import__("os").environ.get("VERIF_REPO", "/repo"))
 import numpy as np
 
 from ..common import cq, cb, cn, clist
@@ -151,7 +151,9 @@ class StepCtl(Unit):
             return "crash: compute_step raised %s: %s" % (r["exc"], r.get("msg"))
         lamb = case["lamb"]
         p = case["prm"]
-        if not r["acc"] and r["lamb"] <= lamb:
+        # (the exact controller's trial abandoned at a deadline test: unchanged iterate, unchanged lambda)
+        abandoned = case["kind"] == 0 and any(self.passed(case)) and r["id"] == 0 and r["lamb"] == lamb
+        if not r["acc"] and r["lamb"] <= lamb and not abandoned:
             return "reject_shrinks: not accepted but lambda %r -> %r does not increase" % (lamb, r["lamb"])
         if r["acc"]:
             st = {s["id"]: s for s in case["stream"]}[r["id"]]
